@@ -254,3 +254,27 @@ package parser
 //@ optable 7 left: IN
 //@ optable 8 unary: '-' '!' '^' '&' '*'
 //@ optable 9 postfix: '(' '[' '.'
+
+// C03: literals denote exactly what is written. strconv is the oracle for "the value a digit string denotes in base b"
+// (trusted: parseIntOK/parseIntVal/parseFloatOK/parseFloatVal are what strconv.ParseInt/ParseFloat answer); the contract
+// of toNumber fixes WHICH digits, base and sign reach it for every spelling the scanner produces (optionally preceded by
+// the '-' the grammar prepends): 0x / -0x hexadecimal, 0b / -0b binary, a '.' or an exponent makes a float, else decimal.
+//@ spec fun parseIntOK(s string, base int, bits int) bool
+//@ spec fun parseIntVal(s string, base int, bits int) int
+//@ spec fun parseFloatOK(s string, bits int) bool
+//@ spec fun parseFloatVal(s string, bits int) float64
+//@ spec fun pfx2(s string, p string) bool = len(s) > 2 && substr(s, 0, 2) == p
+//@ spec fun pfx3(s string, p string) bool = len(s) > 3 && substr(s, 0, 3) == p
+//@ spec fun intIs(v reflect.Value, err error, digits string, base int) bool = ((err == nil) == parseIntOK(digits, base, 64)) && (err == nil ==> rvKind(v) == reflect.Int64 && rvInt(v) == parseIntVal(digits, base, 64))
+//@ spec fun floatIs(v reflect.Value, err error, text string) bool = ((err == nil) == parseFloatOK(text, 64)) && (err == nil ==> rvKind(v) == reflect.Float64 && same(rvFloat(v), parseFloatVal(text, 64)))
+//@ spec fun isPrefixed(s string) bool = pfx2(s, "0x") || pfx3(s, "-0x") || pfx2(s, "0b") || pfx3(s, "-0b")
+
+//@ func toNumber
+//@ props C03
+//@ ensures [C03] hex: pfx2(numString, "0x") ==> intIs(result.0, result.1, substr(numString, 2, len(numString)), 16)
+//@ ensures [C03] hexneg: !pfx2(numString, "0x") && pfx3(numString, "-0x") ==> intIs(result.0, result.1, concat("-", substr(numString, 3, len(numString))), 16)
+//@ ensures [C03] bin: !pfx2(numString, "0x") && !pfx3(numString, "-0x") && pfx2(numString, "0b") ==> intIs(result.0, result.1, substr(numString, 2, len(numString)), 2)
+//@ ensures [C03] binneg: !pfx2(numString, "0x") && !pfx3(numString, "-0x") && !pfx2(numString, "0b") && pfx3(numString, "-0b") ==> intIs(result.0, result.1, concat("-", substr(numString, 3, len(numString))), 2)
+//@ ensures [C03] float: !isPrefixed(numString) && (strContains(numString, ".") || strContains(numString, "e")) ==> floatIs(result.0, result.1, numString)
+//@ ensures [C03] dec: !isPrefixed(numString) && !strContains(numString, ".") && !strContains(numString, "e") ==> intIs(result.0, result.1, numString, 10)
+//@ ensures [C03] rejected: result.1 != nil ==> result.0 == nilValue
